@@ -98,6 +98,20 @@ Example C02_types_refuted :
     = RStuck (KType "push_back on non-vector _a").
 Proof. exact types_refuted_lemma. Qed.
 
+(* ---------- block scoping is a property of the semantics ---------- *)
+(* For EVERY program of the IR, every event and every state: a statement, a block or a statement list that terminates
+   normally leaves the stack of frames with exactly the names it had - declarations go into the frame a block opens for
+   itself and that frame is gone when the block ends; assignments, push_back, clear, retrievals and Fill replace values in
+   place.  So what well_scoped rejects (a use outside the declaring block) really is a use of a name that no longer
+   exists, whatever ran in between. *)
+From FV Require Import Proofs.FrameShape.
+Theorem C02_execution_keeps_declared_names : forall (brs : list branch) (ev : event),
+  (forall s st st', exec_stmt brs ev s st = ROk st' -> shape st' = shape st) /\
+  (forall b pre st st', exec_block brs ev b pre st = ROk st' -> shape st' = shape st) /\
+  (forall l st st', exec_stmts brs ev l st = ROk st' -> shape st' = shape st).
+Proof. exact exec_shape. Qed.
+Print Assumptions C02_execution_keeps_declared_names.
+
 (* ---------- vector element types: a syntactic C++ rule, not a theorem about Exec ---------- *)
 (* std::vector has no conversion between different element types, so a cast of a declared vector to another vector
    type, or a push_back of a declared vector into a vector whose element type is a different text, does not compile.
